@@ -24,6 +24,16 @@ CHECKS = [
      "TLA+ spec model-checked with TLC + systematic schedule enumeration on the real engine + trace validation"),
  eng("C07", "CycleDetected(list) is enabled only when the engine is Stuck and the list is a chain of real wait-for edges starting at the target and closing on itself; NoStall/NoFalseCycle are TLC invariants over a cyclic program family including rewired programs across restarts; every cycleDetected callback of the real engine is validated edge by edge.",
      "TLA+ spec model-checked with TLC + trace validation of cycle reports"),
+ dict(property_id="C04", quick_cmd="./tools/check C04 --tier quick", thorough_cmd="./tools/check C04 --tier thorough",
+      evidence_file="/verif/evidence/C04.json", replay_cmd_template="./tools/check C04 --replay {path}", engine="tlc+engine_driver+killshim",
+      level_claimed=dict(category="fault_enumeration", text="The driver process is SIGKILLed before the N-th system call that touches the database or its journal, for every N inside every build of generated histories (all N in the thorough tier); a new process checks PRAGMA integrity_check, snapshots the file and continues the history; the spliced trace <prefix, Crash, Snapshot, continuation> must be a behaviour of Engine.tla, whose Crash/CrashAfterCommit actions admit exactly the last committed image (or the new one once setCurrentIteration was issued), and CleanResult is evaluated on every later build (tasks with output cells model outputs already modified). TLC also checks DBConsistent/CleanResult on the specification with Crash enabled in every state.", design_ref="DESIGN.md §7 C04"),
+      level_note="Fault = process kill, not power loss. Interception at the libc entry points sqlite3 imports. Trusted: TLC, the LD_PRELOAD shim's call counting, synchronous completion mode making kill points reproducible.",
+      technique="TLA+ spec (Crash actions) + kill-point enumeration on the real process, recovered traces validated against the spec"),
+ dict(property_id="C20", quick_cmd="./tools/check C20 --tier quick", thorough_cmd="./tools/check C20 --tier thorough",
+      evidence_file="/verif/evidence/C20.json", replay_cmd_template="./tools/check C20 --replay {path}", engine="tlc+engine_driver_capi",
+      level_claimed=dict(category="model_checking", text="The same scripted programs are written against core.h (harness/engine_driver_capi.cpp); every history is driven through both interfaces, the C trace is validated against Engine.tla (EngineTraceC.tla, where the events the C interface cannot express are inferred by TLC and the database snapshot pins them) and compared event by event with the C++ run (callbacks, executions, results, persisted rows).", design_ref="DESIGN.md §7 C20"),
+      level_note=ENGINE_NOTE + " The exhaustive model checking of Engine.tla itself is the one reported under C01-C07; this check contributes the binding of the C interface to that specification.",
+      technique="trace validation of C-interface executions against the TLA+ spec + C/C++ twin comparison"),
 ]
 NA = []
 claimed = {c["property_id"] for c in CHECKS}
@@ -35,7 +45,7 @@ m = dict(version=1, setup_cmd="./tools/setup",
          hooks=dict(guard="LLBUILD_VERIF", enable="tools/build.sh configures an out-of-tree build of /repo in /verif/.build/<variant> with -DCMAKE_CXX_FLAGS=-DLLBUILD_VERIF",
                     baseline_off_cmd="/verif/tools/baseline_off.sh", source_commits=HOOK_COMMITS, add_only=True),
          engines=[dict(name="tlc", path="/opt/veriftools/tla/tla2tools.jar", serves_properties=sorted(claimed), kind_free_text="TLC model checker on spec/*.tla (exhaustive configurations and trace validation)"),
-                  dict(name="engine_driver", path="/verif/harness/engine_driver.cpp", serves_properties=["C01","C02","C03","C05","C06","C07"], kind_free_text="scripted-program client of core::BuildEngine that records every API event as ndjson")],
+                  dict(name="engine_driver", path="/verif/harness/engine_driver.cpp", serves_properties=["C01","C02","C03","C04","C05","C06","C07"], kind_free_text="scripted-program client of core::BuildEngine that records every API event as ndjson")],
          checks=CHECKS, not_applicable=NA,
          notes="Every check rebuilds /repo's working tree out of tree with the hooks enabled (tools/build.sh), runs TLC on the property's configuration of the specification, runs the real code and validates its recorded traces against the specification. Known findings: known_findings.jsonl.")
 json.dump(m, open("/verif/MANIFEST.json", "w"), indent=1)
